@@ -482,6 +482,22 @@ func runStoreBehaviourHooked(w *tr.Writer, b storeBehaviour, seed int64, scratch
 			if err == nil {
 				issued[op.Mb] = append(issued[op.Mb], id)
 			}
+		case "listfault":
+			// the mailbox is listed while the process cannot open any further file (RLIMIT_NOFILE = 0, as under descriptor
+			// exhaustion): an error is an answer, a wrong listing is not
+			w.Flush()
+			var old syscall.Rlimit
+			_ = syscall.Getrlimit(syscall.RLIMIT_NOFILE, &old)
+			_ = syscall.Setrlimit(syscall.RLIMIT_NOFILE, &syscall.Rlimit{Cur: 0, Max: old.Max})
+			ms, err := st.GetMessages(name)
+			_ = syscall.Setrlimit(syscall.RLIMIT_NOFILE, &old)
+			ev["r"] = errClass(err)
+			if err != nil {
+				ev["r"] = "err"
+				ev["msgs"] = []tr.Msg{}
+			} else {
+				ev["msgs"] = tr.ProjectMsgs(ms)
+			}
 		case "get":
 			id := realID(op.Mb, op.ID)
 			ev["id"] = id
